@@ -25,7 +25,7 @@
    The denotation-level oracle of the correspondence check decides the same statement independently. *)
 From Coq Require Import List String Ascii Arith.
 From PC Require Import Base.Codes Comp.Syntax Comp.Compile Design.Propagate Design.PropagateProofs Design.Designer Design.DesignerProofs Design.TemplateProofs
-  Design.Contraction Design.DGraph Design.DenoteGraph Design.DenoteTie Design.DenoteSat Design.LoadProofs Design.SeedProofs Design.LayoutProofs Design.Loaded Design.BlankProofs Design.StructLayout Design.StructSeed Design.StructTotal Design.LoadedStruct.
+  Design.Contraction Design.DGraph Design.DenoteGraph Design.DenoteTie Design.DenoteSat Design.LoadProofs Design.SeedProofs Design.LayoutProofs Design.Loaded Design.BlankProofs Design.StructLayout Design.StructSeed Design.StructTotal Design.LoadedStruct Design.StructBlank.
 Import ListNotations.
 
 Theorem C04_closure_exact_partial : forall g, graph_closed g = true ->
@@ -192,3 +192,32 @@ Theorem C04_struct_seed_is_declarative : forall (p : pspec), LI p -> forall (lay
   g_keys g = map fst (g_st g) /\ placed p.
 Proof. exact seed_graph_struct. Qed.
 Print Assumptions C04_struct_seed_is_declarative.
+
+(* structure layout: the nucleotides sit exactly at the positions of the structures; everything else is blank *)
+Theorem C04_struct_blank_iff_off_struct : forall ls p lay g, load_spec ls pspec0 = OK p -> seed p true = OK (lay, g) ->
+  forall e w s, get_constraints p true = DOk e w s -> forall i, i < List.length s ->
+  (nth_error s i = Some None <-> ~ in_struct p lay i).
+Proof. exact blank_iff_off_struct. Qed.
+Print Assumptions C04_struct_blank_iff_off_struct.
+
+(* every strand of a structure sits where the layout says, is followed by one blank, the structure by one more,
+   and the next structure starts right behind it: strands are at least one blank, complexes at least two blanks apart *)
+Theorem C04_struct_blanks : forall ls p lay g, load_spec ls pspec0 = OK p -> seed p true = OK (lay, g) ->
+  forall before sn names sy len after pre n post,
+  p_structs p = before ++ (sn, (names, sy, len)) :: after -> names = pre ++ n :: post ->
+  (forall o, o < strand_len p n -> enc p lay (DInst sn (total p pre + o)) = sswidth p before + swidth p pre + o) /\
+  ~ in_struct p lay (sswidth p before + swidth p pre + strand_len p n) /\
+  ~ in_struct p lay (sswidth p before + swidth p names) /\
+  (forall sn' names' sy' len' after', after = (sn', (names', sy', len')) :: after' ->
+     afind (l_sstart lay) sn' = Some (sswidth p before + swidth p names + 1)).
+Proof. exact blanks_in_struct. Qed.
+Print Assumptions C04_struct_blanks.
+
+Theorem C04_struct_separators : forall ls p lay g, load_spec ls pspec0 = OK p -> seed p true = OK (lay, g) ->
+  forall e w s, get_constraints p true = DOk e w s ->
+  forall before sn names sy len after pre n post x,
+  p_structs p = before ++ (sn, (names, sy, len)) :: after -> names = pre ++ n :: post ->
+  (x = sswidth p before + swidth p pre + strand_len p n \/ x = sswidth p before + swidth p names) -> x < List.length s ->
+  nth_error s x = Some None.
+Proof. exact struct_separators. Qed.
+Print Assumptions C04_struct_separators.
